@@ -1,5 +1,4 @@
 package main
 
-func genTags(p *pkgInfo, out string)           {}
 func genEffects(p, enc *pkgInfo, out string)   {}
 func genEmbedded(enc *pkgInfo, out string)     {}
